@@ -24,9 +24,73 @@ package tcp
 //@   event
 //@ assume func =(*net.conn).Close
 //@   event
-//@ assume func newTcpTransport
+//@ assume func =net.Listen
 //@   event
+//@   modifies nothing
 //@   ensures_assumed iff(result1 == nil, result0 != nil)
+// ASSUMED: a listener obtained for a tcp scheme is a *net.TCPListener, a dialed tcp connection a *net.TCPConn
+//@   ensures_assumed implies(result1 == nil, is(result0, *net.TCPListener) && as(result0, *net.TCPListener) != nil)
+//@ assume func =(*net.Dialer).DialContext
+//@   event
+//@   modifies nothing
+//@   ensures_assumed iff(result1 == nil, result0 != nil)
+//@   ensures_assumed implies(result1 == nil, is(result0, *net.TCPConn) && as(result0, *net.TCPConn) != nil)
+// ASSUMED: the socket option setters and the address helpers of package net touch no object of this repository
+//@ assume func =(*net.TCPConn).SetKeepAlive
+//@   event
+//@   modifies nothing
+//@ assume func =(*net.TCPConn).SetKeepAlivePeriod
+//@   event
+//@   modifies nothing
+//@ assume func =(*net.TCPConn).SetLinger
+//@   event
+//@   modifies nothing
+//@ assume func =(*net.TCPConn).SetNoDelay
+//@   event
+//@   modifies nothing
+//@ assume func =(*net.conn).SetReadBuffer
+//@   event
+//@   modifies nothing
+//@ assume func =(*net.conn).SetWriteBuffer
+//@   event
+//@   modifies nothing
+//@ assume func =net.SplitHostPort
+//@   modifies nothing
+//@ assume func =net.JoinHostPort
+//@   modifies nothing
+// ASSUMED: the options found in a context are not nil - DefaultOption is initialised non-nil and never
+// reassigned (globals immutable), and WithOptions(nil) is a caller error outside every property here.
+//@ func FromContext
+//@   params ctx def
+//@   requires ctx != nil
+//@   may_panic true
+//@   modifies nothing
+//@   ensures_assumed options_not_nil: result != nil
+//@ property C13 C17
+//@ func newTcpTransport
+//@   params conn tcpOptions client
+//@   event
+//@   requires conn != nil && tcpOptions != nil
+//@   modifies nothing
+//@   ensures transport_or_error: iff(result1 == nil, result0 != nil)
+//@   ensures wraps_the_connection_with_the_requested_buffers: implies(result1 == nil, result0.Transport != nil && iff(tcpOptions.ReadBufferSize > 0 && tcpOptions.WriteBufferSize > 0, is(result0.Transport, *transport.bufConn)) && iff(tcpOptions.ReadBufferSize > 0 && tcpOptions.WriteBufferSize <= 0, is(result0.Transport, *transport.bufReadConn)) && iff(tcpOptions.ReadBufferSize <= 0 && tcpOptions.WriteBufferSize > 0, is(result0.Transport, *transport.bufWriteConn)) && iff(tcpOptions.ReadBufferSize <= 0 && tcpOptions.WriteBufferSize <= 0, is(result0.Transport, *transport.rawConn)))
+//@ property C13
+//@ func (*tcpFactory).Listen
+//@   params f options
+//@   event
+//@   requires options != nil && options.Address != nil && options.Context != nil
+//@   may_panic true
+//@   modifies all
+//@   ensures acceptor_or_error: iff(result1 == nil, result0 != nil)
+//@   ensures acceptor_is_well_formed: implies(result1 == nil, is(result0, *tcpAcceptor) && as(result0, *tcpAcceptor).listener != nil && as(result0, *tcpAcceptor).options != nil && as(result0, *tcpAcceptor).closed == 0)
+//@ func (*tcpFactory).Connect
+//@   params f options
+//@   event
+//@   requires options != nil && options.Address != nil && options.Context != nil
+//@   may_panic true
+//@   modifies all
+//@   ensures transport_or_error: iff(result1 == nil, result0 != nil)
+//@   ensures failed_setup_closes_the_connection: implies(count("newTcpTransport") == 1 && evres(last("newTcpTransport"), 1) != nil, count("Conn.Close") == 1 && count("Close") == 1 && result0 == nil && result1 != nil)
 //@ func (*tcpAcceptor).Close
 //@   params t
 //@   requires t != nil && t.listener != nil
@@ -34,12 +98,13 @@ package tcp
 //@ func (*tcpAcceptor).Accept
 //@   params t
 //@   locals tempDelay conn err ne ok max tt
-//@   requires t != nil && t.listener != nil
+//@   requires t != nil && t.listener != nil && t.options != nil
 //@   modifies nothing
 //@   loop 0 emits
 //@   loop 0 invariant retries_only_timeouts_while_open: implies(nemitted() > 0, nemitted() == 4 && evis(0, "AcceptTCP") && evarg(0, 0) == t.listener && evres(0, 1) != nil && evis(1, "load t.closed") && evres(1, 0) == 0 && evis(2, "net.Error.Timeout") && evres(2, 0) && evis(3, "time.Sleep"))
 //@   loop 0 invariant delay_bounded: 0 <= tempDelay && tempDelay <= 1000000000
 //@   ensures result_of_last_accept: last("AcceptTCP") >= 0 && evarg(last("AcceptTCP"), 0) == t.listener && implies(result1 == nil, result0 != nil && evres(last("AcceptTCP"), 1) == nil)
+//@   ensures failed_setup_closes_the_connection: implies(count("newTcpTransport") == 1 && evres(last("newTcpTransport"), 1) != nil, count("conn).Close") == 1 && count("Close") == 1 && result0 == nil && result1 != nil)
 //@   ensures closed_acceptor_reports_the_error: implies(evres(last("AcceptTCP"), 1) != nil, result1 != nil && result0 == nil && evis(last("AcceptTCP") + 1, "load t.closed"))
 
 // no mutable package-level state (C12, and every property whose plan touches this package)
